@@ -99,13 +99,30 @@ def evLines (evs : List Ev) : List String :=
 
 def clockStart : Nat := 1000000000000000000
 
-def freshNode (role : Role) : Node :=
+def freshNodeAt (role : Role) (clock : Nat) : Node :=
   let adm := Db.new Gen.adminDb 0 .newer
-  let (adm, _, _) := adm.setValue { key := Gen.tokenKey, value := b!"pw", version := -1, opId := clockStart, resolve := false }
-  let (adm, _, _) := adm.setValue { key := Gen.adminDb, value := b!"{}", version := -1, opId := clockStart + 1, resolve := false }
+  let (adm, _, _) := adm.setValue { key := Gen.tokenKey, value := b!"pw", version := -1, opId := clock, resolve := false }
+  let (adm, _, _) := adm.setValue { key := Gen.adminDb, value := b!"{}", version := -1, opId := clock + 1, resolve := false }
   { user := b!"adm", pwd := b!"pw", addr := b!"n1", pid := 1, role := role,
-    dbs := [(Gen.adminDb, adm)], idName := [(0, Gen.adminDb)], sessions := [], clock := clockStart + 2,
+    dbs := [(Gen.adminDb, adm)], idName := [(0, Gen.adminDb)], sessions := [], clock := clock + 2,
     members := [], pending := [], toSnapshot := [], keysMap := [], oplogValid := true }
+
+def freshNode (role : Role) : Node := freshNodeAt role clockStart
+
+def hexStr (b : Bytes) : String := String.ofList (b.flatMap fun x => [hexDigit (x / 16), hexDigit (x % 16)])
+
+def dumpFs (fs : Fs) : List String :=
+  (sortBy (·.1) fs).map fun (f, c) => s!"F {escw f} {hexStr c}"
+
+/-- `order=<db>:<k1>,<k2>;<db2>:…` (keys and names in `escw` form) -/
+def parseOrders (s : Bytes) : List (Bytes × List Bytes) :=
+  match s with
+  | 111 :: 114 :: 100 :: 101 :: 114 :: 61 :: rest =>
+    (Bytes.splitAll 59 rest).filterMap fun part =>
+      match Bytes.splitn 58 2 part with
+      | [d, ks] => some (unesc d, (Bytes.splitAll 44 ks).filter (· != []) |>.map unesc)
+      | _ => none
+  | _ => []
 
 structure World where
   node : Node
@@ -176,6 +193,15 @@ def step (w : World) (line : String) : World × List String :=
       let (n, reply, evs) := w.node.http sid (unesc a2)
       ({ w with node := n }, s!"H {esc reply}" :: evLines evs ++ dumpNode n)
     | none => (w, ["E bad-op"])
+  | "SNAP" =>
+    let n := w.node.snapshotAll (parseOrders a1)
+    ({ w with node := n }, dumpFs n.fs ++ dumpNode n)
+  | "RESTART" =>
+    match w.node.restart (freshNodeAt w.node.role w.node.clock) with
+    | some n =>
+      -- the fresh node consumed two ticks before loading
+      ({ w with node := n, notices := [] }, "# restarted" :: dumpFs n.fs ++ dumpNode n)
+    | none => ({ w with node := { freshNodeAt w.node.role w.node.clock with fs := w.node.fs }, notices := [] }, ["R PANIC restart"])
   | "REG" =>
     match Bytes.parseNat a1 with
     | some op =>
